@@ -8,16 +8,33 @@ KINDS = {"SOLUTION": "solution", "EQUILIBRIUM_PHASES": "equilibrium_phases", "EX
 
 
 class Entity:
-    __slots__ = ("kind", "n", "desc", "lines")
+    __slots__ = ("kind", "n", "desc", "lines", "all_lines")
 
     def __init__(self, kind, n, desc):
-        self.kind, self.n, self.desc, self.lines = kind, n, desc, []
+        self.kind, self.n, self.desc, self.lines, self.all_lines = kind, n, desc, [], []
 
     def body(self):
         return "\n".join(self.lines)
 
+    def content_lines(self):
+        """lines that are content: sections introduced by a '... workspace variables' comment are scratch data of the last
+        calculation (recomputed, e.g. KINETICS -totals by ListComponents) and are left out"""
+        out, skip_indent = [], None
+        for l in self.all_lines:
+            st = l.strip()
+            ind = len(l) - len(l.lstrip(" "))
+            if st.startswith("#"):
+                skip_indent = ind if "workspace" in st else None
+                continue
+            if skip_indent is not None:
+                if ind >= skip_indent:
+                    continue
+                skip_indent = None
+            out.append(l.rstrip())
+        return out
+
     def content_id(self):
-        return hashlib.sha1(self.body().encode("latin-1", "replace")).hexdigest()[:16]
+        return hashlib.sha1("\n".join(self.content_lines()).encode("latin-1", "replace")).hexdigest()[:16]
 
     def tree(self):
         return parse_tree(self.lines)
@@ -34,6 +51,8 @@ def entities(dump):
             cur = None
             other.append(line)
         elif cur is not None:
+            if line.strip():
+                cur.all_lines.append(line.rstrip())
             if line.strip() and not line.strip().startswith("#"):
                 cur.lines.append(line.rstrip())
     return out, other
